@@ -5,7 +5,7 @@ CHECKS = {
  "C15": {
   "level": "fault_enumeration",
   "technique": "fault injection with exhaustive enumeration of every recorded boundary call x applicable fault kind per Hypothesis-generated project (trace run, then one faulted real pytest session per point)",
-  "text": "For each generated project a trace run records all calls at 10 boundaries (black, format-command, read, ensure_import, persist, rename, open, write, replace, new_code) during tests and session finish; every (call index, fault kind) pair is then injected in its own session from a pristine copy. Projects contain non-ASCII text and the formatter fault kinds include correct output in a non-utf-8 encoding. Files must be previous or complete new content (or, after formatter faults, correct code with the syntax tree of the un-faulted result), always parse, never be a prefix; formatter failures must be reported; after pruning -new files every external reference must resolve. Fault enumeration: exhaustive over the recorded trace of each project.",
+  "text": "For each generated project a trace run records all calls at 10 boundaries (black, format-command, read, ensure_import, persist, rename, open, write, close, replace, new_code) during tests and session finish; every (call index, fault kind) pair is then injected in its own session from a pristine copy. Projects contain non-ASCII text and the formatter fault kinds include correct output in a non-utf-8 encoding. Files must be previous or complete new content (or, after formatter faults, correct code with the syntax tree of the un-faulted result), always parse, never be a prefix; formatter failures must be reported; after pruning -new files every external reference must resolve. Fault enumeration: exhaustive over the recorded trace of each project.",
   "note": "faults are exceptions / bad return values at python call boundaries and prefix writes, injected by a harness-side pytest plugin; real process kills and kernel-level atomicity are not modelled",
  },
  "C13": {
@@ -20,12 +20,12 @@ CHECKS = {
  },
  "C07": {
   "technique": "Hypothesis property-based testing over real pytest subprocess sessions; oracle from junit outcomes and exit status against generator-assigned site statuses, executed sites observed through side-file markers",
-  "text": "Generated files (1-4 tests x 1-4 sites, statuses ok/wrong/missing, five operations, loops with a late wrong iteration - for == too: the source value matches the first evaluations -, shared module-level sites, parametrized tests) are run with every flag combination (category subsets alone or with report/review/short-report, no flags, disable); a test that executed a bad site must be failed/errored with non-zero exit status, all others passed. Exploration.",
+  "text": "Generated files (1-4 tests x 1-4 sites, statuses ok/wrong/missing, five operations, loops with a late wrong iteration - for == too: the source value matches the first evaluations -, shared module-level sites, parametrized tests, conditional inner snapshots) are run with every flag combination (category subsets alone or with report/review/short-report, no flags, disable); a test that executed a bad site must be failed/errored with non-zero exit status, all others passed. Exploration.",
   "note": "which sites a test executed is observed (markers), not modelled; module-level empty snapshots are outside the property's scope",
  },
  "C19": {
   "technique": "Hypothesis-generated three-way differential testing: Example.run_inline vs Example.run_pytest vs a real `python -m pytest` session on identical generated projects",
-  "text": "Generated projects (1-2 files, all operations, noisy previous values, failing and raising tests, HasRepr values, several categories pending in one container) are run through the two public helpers and a real session with every category subset; changed files must be identical across the three and the reported categories must match the sections of a real report session with the same flags. Exploration.",
+  "text": "Generated projects (1-2 files, all operations, noisy previous values, failing and raising tests before and after the others, bounds that cannot be ordered against the observed value, HasRepr values, several categories pending in one container) are run through the two public helpers and a real session with every category subset; changed files must be identical across the three and the reported categories must match the sections of a real report session with the same flags. Exploration.",
   "note": "projects stay inside what run_inline documents (module-level test functions, no externals); update is compared only where the plugin shows a non-empty diff",
  },
  "C18": {
@@ -35,7 +35,7 @@ CHECKS = {
  },
  "C10": {
   "technique": "Hypothesis property-based testing of generated containers mixing managed and user-controlled expressions; oracle = textual tracing of uniquely tagged user-controlled segments plus a value-level alignment model for the cases the property decides",
-  "text": "Containers (list, tuple, dict, dataclass/attrs/namedtuple calls, nested) mixing managed elements with Is(), f-strings, inner snapshots, dirty-equals stand-ins and star-expressions are run with every approved set; each user-controlled segment must appear verbatim at most once and in order, must survive under surviving keys, in the equal common prefix/suffix and under the replacement rule, star containers keep their text, managed siblings are repaired; the comparison runs once, twice (re-evaluated argument) or never (only update may touch the text, never a user-controlled part). Exploration.",
+  "text": "Containers (list, tuple, dict, dataclass/attrs/namedtuple calls, nested) mixing managed elements with Is(), f-strings, inner snapshots, dirty-equals stand-ins and star-expressions are run with every approved set; each user-controlled segment must appear verbatim at most once and in order, must survive under surviving keys, in the equal common prefix/suffix and under the replacement rule, star containers keep their text, managed siblings are repaired; the comparison runs once, twice (re-evaluated argument) or never (only update may touch the text, never a user-controlled part); sibling values collide on purpose; a second arm checks that `snapshot({**d, ...})[key]` leaves the display alone. Exploration.",
   "note": "dirty-equals is replaced by a 30-line stand-in package (only DirtyEquals is consulted by the code under test); tie-breaks of the alignment are not modelled, only the decidable cases are demanded",
  },
  "C20": {
@@ -45,7 +45,7 @@ CHECKS = {
  },
  "C03": {
   "technique": "Hypothesis property-based testing with a masked byte-equality / masked syntax-tree oracle over generated adversarial layouts",
-  "text": "Generated programs are decorated outside the arguments (non-ASCII text left of the call, `;`-joined sites, nested calls, decorators, `snapshot(` inside strings and comments, tabs, CRLF, clean/unclean, black / no black / format-command) and run with any of the 16 approved sets; everything outside the argument spans of the sites that the category model allows to change must be byte-identical (or tree-identical when whole-file formatting applies), up to the documented import lines. A real-session arm over several files varies the layout of the last top-level import (multi-line, backslash, `;`, comment, try block) below which the import is added. Exploration.",
+  "text": "Generated programs are decorated outside the arguments (non-ASCII text left of the call, unix / dos / classic-mac / mixed line endings, `;`-joined sites, nested calls, decorators, `snapshot(` inside strings and comments, tabs, CRLF, clean/unclean, black / no black / format-command) and run with any of the 16 approved sets; everything outside the argument spans of the sites that the category model allows to change must be byte-identical (or tree-identical when whole-file formatting applies), up to the documented import lines. A real-session arm over several files varies the layout of the last top-level import (multi-line, backslash, `;`, comment, try block) below which the import is added. Exploration.",
   "note": "python's ast is trusted to locate call parentheses; which sites may change comes from the independent category model (all sites when update is approved)",
  },
  "C16": {
@@ -70,7 +70,7 @@ CHECKS = {
  },
  "C09": {
   "technique": "Hypothesis property-based testing with exhaustive enumeration of all k! approval orders per generated program (metamorphic: any order == all-at-once, compared as syntax trees)",
-  "text": "For every generated program with k >= 2 pending categories every permutation of single-category sessions and the combined session are run from pristine copies and the final syntax trees compared; recording bodies, plus assert-style bodies for the orders in which no trim-only run can stop at a failing comparison, plus a real-session arm for the combined run. Exploration over programs, exhaustive over orders.",
+  "text": "For every generated program with k >= 2 pending categories every permutation of single-category sessions and the combined session are run from pristine copies and the final syntax trees compared; recording bodies, plus assert-style bodies for the orders in which no trim-only run can stop at a failing comparison, plus arms for containers with inner snapshots (each element in a state that makes one category pending), for the mixed containers of C10, and real-session arms for the combined run and for added imports. Exploration over programs, exhaustive over orders.",
   "note": "recording bodies (observations independent of comparison answers) as the property's domain requires, asserting bodies only for orders where create/fix/update keep the test running; positional constructor arguments excluded (F14)",
  },
  "C11": {
